@@ -157,12 +157,11 @@ class TravelCalculator:
             from_position=self._last_known_position,
             to_position=self._travel_to_position,
         )
-        if time.time() > self._last_known_position_timestamp + remaining_travel_time:
+        now = time.time()
+        if now >= self._last_known_position_timestamp + remaining_travel_time:
             return self._travel_to_position
 
-        progress = (
-            time.time() - self._last_known_position_timestamp
-        ) / remaining_travel_time
+        progress = (now - self._last_known_position_timestamp) / remaining_travel_time
         return int(self._last_known_position + relative_position * progress)
 
     def calculate_travel_time(self, from_position: int, to_position: int) -> float:
